@@ -415,6 +415,41 @@ def same_container_state(a, b, tolmul=1.0):
 # ==================================================================================================
 # handlers: Container.__init__, Container.transfer, Plate.transfer
 
+class HPlateInit(Handler):
+    """A constructed plate is what was asked for: every well is an empty container whose capacity is the stated
+    per-well capacity (by the reference reading of the string, in the storage unit of the configuration file)."""
+    skip_immut_first = True
+
+    def post(self, ctx, args, kwargs, result, exc):
+        import math
+        if exc is not None:
+            return
+        plate = args[0]
+        cap = args[2] if len(args) > 2 else kwargs.get('max_volume_per_well')
+        M.count('PLATE.ctor')
+        try:
+            v, b = R.parse_quantity(cap)
+        except Exception:   # noqa
+            return
+        if b != 'L':
+            return
+        want = v / R.cfg().vol_prefix
+        tol = K * R.cfg().q + 1e-12 * abs(want)
+        bad = None
+        for ij, w in _enum(plate.wells):
+            if not (abs(w.max_volume - want) <= tol) or w.contents or w.volume != 0:
+                bad = (ij, w.max_volume, w.volume, len(w.contents))
+                break
+        if bad is None and not (abs(plate.max_volume_per_well - want) <= tol):
+            bad = ('plate.max_volume_per_well', plate.max_volume_per_well, None, None)
+        if bad is not None:
+            M.violate(['C03', 'C07'], 'SANE', 'C03:well_of_new_plate_ne_stated_capacity_or_not_empty',
+                      {'stated': cap, 'expected_storage_units': want, 'well': bad[0], 'max_volume': bad[1], 'volume': bad[2],
+                       'n_contents': bad[3]})
+        else:
+            M.bucket('C03/plate_ctor/wells_as_stated')
+
+
 class HContainerInit(Handler):
     skip_immut_first = True
 
